@@ -147,6 +147,19 @@ CLAIMED["C11"] = dict(
          "by the generator (the model of gp_u32_simple_fold IS that tree; tied to the code by the correspondence run).",
     ref="6 C11")
 
+CLAIMED["C19"] = dict(
+    technique="Lean model of src/assert.c's bookkeeping (thread-local current test/suite + marks, global counters, atexit) + T-corr against real child processes (exhaustive scripts to length 5/6) + reference tally",
+    text="Theorems (single-threaded programs of any length): exit status != 0 IFF an expectation failed while a test or suite "
+         "was running or an assertion failed (exit_failure_iff, `marks` is the property-level definition); a failing assertion "
+         "ends the process at once with a failure status (assert_false_ends / _fails); the PASSED/FAILED lines are exactly one per "
+         "test / suite started in the executed prefix, in order, FAILED iff something failed while it was running "
+         "(each_reported_once', the executed prefix `cut` is characterised without the model's state); every summary line equals "
+         "the tallies of verdict lines since the last clean summary (summary_counts).",
+    note="Two-thread programs (second thread ends its own tests) are covered by the correspondence run and the reference tally "
+         "only. Message rendering of gp_fail_internal is exercised (E0f: extra arguments and format strings) but only its presence "
+         "is compared. Trusted: harness c19.c (parses the framework's own output lines), the driver.",
+    ref="6 C19")
+
 PENDING = {}
 
 def main():
